@@ -43,11 +43,11 @@ def S(names, stages=(0,), reps=("none", "n2"), aggs=(True, False), spell=("rel",
 
 SLICES = {
     "quick": {
-        "suffix": S(["a", "ba", "ab"], graph=4),
-        "digit": S(["a", "a0", "a1"], graph=4),
-        "misc": S(["x.y", "a-b", "c"], spell=("rel",), graph=2),
-        "stages": S(["a", "c"], stages=(0, 1), graph=4),
-        "shape": S(["p", "q", "r"], reps=("none", "n1", "n2", "n3"), spell=("rel",), orders=("fwd", "rev"), fixed=True, graph=2),
+        "suffix": S(["a", "ba", "ab"], graph=8),
+        "digit": S(["a", "a0", "a1"], graph=8),
+        "misc": S(["x.y", "a-b", "c"], spell=("rel",), graph=4),
+        "stages": S(["a", "c"], stages=(0, 1), graph=8),
+        "shape": S(["p", "q", "r"], reps=("none", "n1", "n2", "n3"), spell=("rel",), orders=("fwd", "rev"), fixed=True, graph=4),
         "many": S(["p", "q"], reps=("none", "n11"), comps=2, fixed=True),
         "vars": S(["p", "q"], stages=(0, 1), reps=ALL_REPS, spell=("abs",), comps=2, fixed=True),
         # variable scoping: the count / the aggregate flag through a variable that the own and the OTHER stage and SIBLING
@@ -55,18 +55,18 @@ SLICES = {
         # platforms: the variable is layered over default global / default stage / platform global / platform stage (and the
         # document holds the other platform's definitions also when the default platform is loaded)
         "platform": S(["p", "q"], stages=(0, 1), reps=("none", "vg", "vs"), spell=("abs",), comps=2, refs=1, fixed=True,
-                      aggvar=(False, True), sv0=(0, 2), sv1=(0, 2), plat=(0, 1), pg=(0, 3), ps0=(0, 1), ps1=(0,), graph=2),
+                      aggvar=(False, True), sv0=(0, 2), sv1=(0, 2), plat=(0, 1), pg=(0, 3), ps0=(0, 1), ps1=(0,), graph=4),
         "scopes": S(["p", "q"], stages=(0, 1), reps=("none", "vg", "vs", "vc"), spell=("abs",), comps=2, refs=1, fixed=True,
-                    priv=(0, 1), aggvar=(False, True), sv0=(0, 1), sv1=(0, 2), orders=("fwd", "rev"), graph=4),
+                    priv=(0, 1), aggvar=(False, True), sv0=(0, 1), sv1=(0, 2), orders=("fwd", "rev"), graph=8),
         "scopes3": S(["p", "q", "r"], stages=(0,), reps=("none", "vg", "vs"), aggs=(False,), spell=("rel",), refs=1, fixed=True,
-                     priv=(0, 3), sv0=(0, 1), orders=("fwd", "rev"), graph=8),
+                     priv=(0, 3), sv0=(0, 1), orders=("fwd", "rev"), graph=16),
         # several references of one consumer to the SAME producer (other file / method / spelling), alone and mixed with
         # references to another producer; replicated, aggregating and plain consumers
         "multi2": S(["p", "q"], stages=(0, 1), paths=("", "out.txt"), methods=("ref", "copy"), styles=("same", "tail"), comps=2,
-                    fixed=True, same=2),
-        "multi3p": S(["p", "q", "r"], spell=("rel",), paths=("", "out.txt"), refs=3, fixed=True, same=2, graph=4),
-        "multi3m": S(["p", "q", "r"], spell=("rel",), methods=("ref", "copy"), refs=3, fixed=True, same=2, graph=4),
-        "multi3s": S(["p", "q", "r"], refs=3, fixed=True, same=2, graph=4),
+                    fixed=True, same=2, graph=2),
+        "multi3p": S(["p", "q", "r"], spell=("rel",), paths=("", "out.txt"), refs=3, fixed=True, same=2, graph=8),
+        "multi3m": S(["p", "q", "r"], spell=("rel",), methods=("ref", "copy"), refs=3, fixed=True, same=2, graph=8),
+        "multi3s": S(["p", "q", "r"], refs=3, fixed=True, same=2, graph=8),
         "refs": S(["p", "q"], paths=("", "out.txt", "d/f.x"), methods=("ref", "copy", "output"),
                   styles=("same", "flip", "tail", "tail2"), comps=2, refs=1, fixed=True),
     },
